@@ -252,7 +252,7 @@ class Module:
         for k in [k for k in S.TYPES if k.endswith(suffix)]:
             del S.TYPES[k]
         for table in (PT._TYPE_TO_ALL_FIELDS, PT._TYPE_TO_CHILD_FIELDS, PT._TYPE_TO_PROPS):
-            for k in [k for k in table if k.__name__.endswith(suffix)]:
+            for k in [k for k in table if getattr(k, "__name__", str(k)).endswith(suffix)]:
                 del table[k]
         sys.modules.pop(self.name, None)
         _CREATED_SINCE_CLEAR[0] += 1
@@ -270,8 +270,8 @@ def new_uid() -> int:
     return _COUNTER[0]
 
 
-def build(classes: list[dict], postponed: bool) -> Module:
-    uid = new_uid()
+def build(classes: list[dict], postponed: bool, uid: int | None = None) -> Module:
+    uid = new_uid() if uid is None else uid
     src, _ = emit_module(classes, postponed, uid)
     return Module(src, uid)
 
